@@ -131,6 +131,13 @@ def fields_part(spec, part):
                                              f"(hours {hs}, minutes {ms})", {"field": True, "range": True, "type": tname, "bytes": bytes(b).hex()})
                             else:
                                 part.count("time_field_ranges_checked")
+                            # on/off byte: 8-byte groups 0 / 0xFF; 12-byte groups: schedule type t in 0..6 (off) or 0xFF - t (on), 0x55 = not set
+                            oo = b[6] if size == 8 else b[4]
+                            valid_oo = (0, 0xFF) if size == 8 else tuple(range(0, 7)) + tuple(range(0xF9, 0x100)) + (0x55,)
+                            if oo not in valid_oo:
+                                part.violate("C11/decode/undocumented-on-off-byte-accepted",
+                                             f"{tname}.read_value({bytes(b).hex()}) returned a value although its on/off byte 0x{oo:02x} is none of the documented ones",
+                                             {"field": True, "range": True, "type": tname, "bytes": bytes(b).hex()})
                         if fresh == "ValueError":
                             part.violate("C11/decode/undecodable-value-accepted-after-earlier-read",
                                          f"{type(sn).__name__}.read_value({bytes(b).hex()}) returned a value on an object that had decoded other "
@@ -268,7 +275,8 @@ def e2e_part(spec, part):
                     singles.append((sid, "ValueError"))
             sids = [s.id_ for s in inv.sensors()]
             rnd.shuffle(sids)
-            for sid in sids[:8]:
+            derived = [s.id_ for s in inv.sensors() if getattr(s, "size_", 1) == 0]      # calculated values and labels (served by a bulk read)
+            for sid in derived + sids[:8]:
                 try:
                     await inv.read_sensor(sid)
                     singles.append((sid, "ok"))
